@@ -55,6 +55,9 @@ Fixpoint stmt_eqb (a b : stmt) {struct a} : bool :=
   | SIf c s1 s2 fas, SIf c' s1' s2' fas' => expr_eqb c c' && go s1 s1' && go s2 s2' && list_eqb triple_eqb fas fas'
   | SSIf c i ss, SSIf c' i' ss' => expr_eqb c c' && Bool.eqb i i' && go ss ss'
   | SBreak e, SBreak e' => expr_eqb e e'
+  | SStruct x tn es, SStruct x' tn' es' => N.eqb x x' && N.eqb tn tn' && list_eqb expr_eqb es es'
+  | SLateDecl x, SLateDecl x' => N.eqb x x'
+  | SLateAssign x e, SLateAssign x' e' => N.eqb x x' && expr_eqb e e'
   | SWhile lvs ss bc, SWhile lvs' ss' bc' => list_eqb triple_eqb lvs lvs' && go ss ss' && opt_eqb bc bc'
   | _, _ => false
   end.
@@ -70,7 +73,8 @@ Definition tw : world :=
                       | PIdx _ i => (v * 5 + Z.of_N i) mod 17 - 3
                       | PIsPtr _ => v mod 2
                       | PCast _ => v
-                      end).
+                      end)
+          (fun tn vs => fold_left (fun a v => (a * 131 + v) mod 1000003) vs (Z.of_N tn + 17)).
 Definition trace_eqb (a b : trace) : bool :=
   list_eqb (fun x y => N.eqb (fst x) (fst y) && list_eqb Z.eqb (snd x) (snd y)) a b.
 Definition outcome_same (a b : outcome) : bool :=
@@ -88,8 +92,9 @@ Fixpoint lits (st : stmt) : list Z :=
   let fix go (ss : list stmt) : list Z := match ss with [] => [] | s :: r => lits s ++ go r end in
   match st with
   | SBin _ _ e1 e2 => lit_expr e1 ++ lit_expr e2
-  | SNot _ e | SPrim _ _ e | SBreak e => lit_expr e
-  | SCall _ args _ => flat_map lit_expr args
+  | SNot _ e | SPrim _ _ e | SBreak e | SLateAssign _ e => lit_expr e
+  | SLateDecl _ => []
+  | SCall _ args _ | SStruct _ _ args => flat_map lit_expr args
   | SIf c s1 s2 fas => go s1 ++ go s2 ++ lit_triples fas
   | SSIf _ _ ss => go ss
   | SWhile lvs ss _ => lit_triples lvs ++ go ss
